@@ -72,7 +72,7 @@ func (r *Run) Sharded(n int, fn func(i int) ShardResult) (totals map[string]int,
 		go func(w int) {
 			defer wg.Done()
 			cmd := exec.Command(os.Args[0], os.Args[1:]...)
-			cmd.Env = append(os.Environ(), fmt.Sprintf("VERIF_SHARD=%d/%d", w, workers), "GOMAXPROCS=2",
+			cmd.Env = append(os.Environ(), fmt.Sprintf("VERIF_SHARD=%d/%d", w, workers), "GOMAXPROCS=1",
 				fmt.Sprintf("VERIF_DEADLINE_S=%d", int(r.deadline.Sub(r.start).Seconds())))
 			cmd.Stderr = os.Stderr
 			out, err := cmd.StdoutPipe()
